@@ -19,6 +19,12 @@ class Module(object):
         with warnings.catch_warnings():
             warnings.simplefilter("ignore")          # the sembuilder DSL ('op'(a, b)) makes CPython warn at parse time
             self.tree = ast.parse(src, filename=rel)
+        if os.environ.get("VERIF_NOCANON") != "1":
+            from .canonical import canonicalise
+            self.tree = canonicalise(self.tree)
+            if os.environ.get("VERIF_NOALPHA") != "1":
+                from .alpha import align_module
+                self.alpha_renamed = align_module(self.tree, rel)
         self.funcs = {}      # qualname -> FunctionDef
         self.classes = {}    # name -> ClassDef
         self.assigns = {}    # module-level name -> value node (last binding)
